@@ -5,7 +5,8 @@ generator tree, which includes reordered, duplicated and unknown optional elemen
 Further inputs: permutations of up to 3 optional elements, each element duplicated with different contents, every unknown
 identifier octet (incl. the half-octet alias values 0x00-0x0F) inserted between elements, the repository samples.
 Stage C: the real chain decode->encode->decode->encode is observed and TLC checks the three laws on the observed values
-and decides canonicity of the input by its own table-driven parse."""
+and decides canonicity of the input by its own table-driven parse.
+Added after seeded rounds 3-5: structured contents for every element (byte level); optional parts of exactly 65 536 octets; every projecting decode is followed by a second decode of the same input into another message that is scribbled over before the first is read."""
 import itertools, json, os, sys
 sys.path.insert(0, os.path.dirname(os.path.abspath(__file__)))
 from codec_common import *
